@@ -114,6 +114,7 @@ def run(F, R, ctx):
 
     reinstate_rule(F, R)
     bulk_discard_rule(F, R)
+    pop_count_rule(F, R)
     wind_rules(F, R)
 
     # close_marks itself must upgrade the weak mark and close it
@@ -424,3 +425,64 @@ def bulk_discard_rule(F, R):
                    "on the stack')" % (fn.short(), what, fn.blocks[i].get("line", "?")), fn.loc(fn.blocks[i].get("line")),
                    sample=True)
     R.floor("C08.f", "bulk discards of the frame stack", n, 2 if "sync" in (F.meta.get("features") or []) else 1)
+
+
+def pop_count_rule(F, R):
+    R.rule("C08.g", "frames and the frame counter move together: in every function that pops a frame off stack_frames and "
+                    "decrements VmCore.pop_count (the number of frames the current dispatch loop still has to return through), "
+                    "where a frame is pushed back — the push argument is the value obtained from the pop, as when an error "
+                    "handler is run in the frame that installed it — every frame pushed after a pop is followed by an "
+                    "increment of pop_count on every path to the return, the next pop or the next push. Otherwise the loop returns one frame early: the handler's value becomes "
+                    "the result of the enclosing callback and the pending work after the handler's extent is skipped")
+    n = 0
+    for name, fn in sorted(F.fns.items()):
+        if not name.startswith("steel::steel_vm::"):
+            continue
+        pops = frame_pops(fn)
+        if not pops:
+            continue
+        decs = [i for i, blk in enumerate(fn.blocks) if not blk.get("c") for e in blk["e"]
+                if e[0] == "binop" and e[1].startswith("Sub") and "pop_count" in str(e[5])]
+        incs = [i for i, blk in enumerate(fn.blocks) if not blk.get("c") for e in blk["e"]
+                if e[0] == "binop" and e[1].startswith("Add") and "pop_count" in str(e[5])]
+        if not decs:
+            continue
+        popd = set()
+        for p in pops:
+            d = re.match(r"_\d+", fn.blocks[p].get("dest") or "")
+            if d:
+                popd.add(d.group(0))
+        pushes = [(i, b) for i, b in fn.calls() if re.search(r"Vec<T,A>\}::push$", b["callee"]) and b["targs"] and
+                  b["targs"][0] == "StackFrame"]
+        backs = []
+        for i, b in pushes:
+            src = set()
+            for a in b["args"][1:]:
+                for t in lib.TOK.findall(a):
+                    for al in lib.alias_sources(fn, t, depth=8):
+                        m = re.match(r"^\(?\*?(_\d+)", al)
+                        if m:
+                            src.add(m.group(1))
+            if src & popd:
+                backs.append(i)
+        if not backs:
+            continue
+        # every frame pushed after a pop (the push-back, and any other frame pushed on the way) is counted before the next
+        # push, the next pop or the return
+        after_pop = set()
+        for p in pops:
+            after_pop |= fn.reachable_from(fn.succ(p))
+        order = sorted(j for j, _ in pushes)
+        for i, b in pushes:
+            if i not in after_pop:
+                continue
+            n += 1
+            others = [j for j in order if j != i]
+            ok = bool(incs) and fn.every_path_passes_from(fn.succ(i), list(fn.returns()) + pops + others, incs)[0]
+            R.inst("C08.g", "%s / frame push #%d after a pop is counted" % (fn.short(), order.index(i)), ok,
+                   "%s pops a frame (pop_count -= 1), pushes it back to run the handler it carries (line %s) and does not "
+                   "increment pop_count again on every path: after the handler returns normally the dispatch loop returns one "
+                   "frame too early — inside a callback of a native higher-order procedure the handler's value replaces the "
+                   "callback's result and the caller's frame is left on the frame stack" % (fn.short(), b["line"]),
+                   fn.loc(b["line"]), sample=True)
+    R.floor("C08.g", "frames pushed back after a pop", n, 2)
